@@ -794,8 +794,14 @@ class Run:
                 if d.get("init") is not None:
                     if ty.endswith("&") and not ty.endswith("&&"):
                         lv = self.lvalue(d["init"], fr)
-                        if lv[0] == "cell":
-                            fr.vars[key] = lv
+                        if lv[0] in ("cell", "hp"):
+                            fr.vars[key] = lv      # a reference IS the object it is bound to (a local, or a field of the heap)
+                            continue
+                        if lv[0] == "hpv":
+                            # a field (never written so far) of an object held by value / by reference parameter
+                            hk = (("obj", lv[1]), lv[2])
+                            self.heap.setdefault(hk, ("f", lv[3], lv[2]))
+                            fr.vars[key] = ("hp", hk[0], hk[1])
                             continue
                         fr.vars[key] = self.new_cell(self._load(lv))
                         continue
@@ -1167,5 +1173,7 @@ class Explorer:
         """final term of the local/parameter called name in the top frame"""
         for key, cell in outcome.frame.vars.items():
             if key == name or key.split("#")[0] == name:
+                if cell[0] == "hp":
+                    return outcome.heap.get((cell[1], cell[2]), ("f", cell[1], cell[2]))
                 return outcome.store.get(cell)
         return None
